@@ -609,4 +609,214 @@ def srun : SOP → List SOp → Option SOP
     | none => none
     | some (s', _) => srun s' ops
 
+/-! ## `size_t` is 64 bits wide: rounding the request up can wrap
+
+`malloc` / `realloc` above compute with unbounded naturals.  In C the statement
+`len += __WORDSIZE - len % __WORDSIZE` wraps around for requests within
+`__WORDSIZE` of `SIZE_MAX`.  After
+`fix: malloc()/realloc() fail when rounding the request up to __WORDSIZE wraps around`
+both routines test for it first and return NULL (`malloc64` / `realloc64`: what
+the driver runs).  `mallocOrig64` / `reallocOrig64` are the routines as they
+were: the wrapped sum is used as the request. -/
+
+def SIZE_MAX : Nat := 2 ^ 64 - 1
+
+/-- ```
+if (len % __WORDSIZE != 0) { pad = __WORDSIZE - len % __WORDSIZE;
+                             if (len > SIZE_MAX - pad) { __allocation_counter--; return 0; }
+                             len += pad; }
+``` -/
+def malloc64 (cfg : Cfg) (h : Heap) (len0 : Nat) : Res :=
+  if len0 % cfg.W ≠ 0 ∧ len0 > SIZE_MAX - (cfg.W - len0 % cfg.W) then ⟨h, none, []⟩ else malloc cfg h len0
+
+/-- the same test in `realloc`, before anything else: the block is left untouched -/
+def realloc64 (cfg : Cfg) (h : Heap) (ptr : Option Nat) (len0 : Nat) : Option Res :=
+  if len0 % cfg.W ≠ 0 ∧ len0 > SIZE_MAX - (cfg.W - len0 % cfg.W) then some ⟨h, none, []⟩
+  else realloc cfg h ptr len0
+
+/-- before the fix: `len` wraps modulo 2⁶⁴ -/
+def mallocOrig64 (cfg : Cfg) (h : Heap) (len0 : Nat) : Res := malloc cfg h (roundLen cfg.W len0 % 2 ^ 64)
+
+def reallocOrig64 (cfg : Cfg) (h : Heap) (ptr : Option Nat) (len0 : Nat) : Option Res :=
+  realloc cfg h ptr (roundLen cfg.W len0 % 2 ^ 64)
+
+/-! ## pools fed from several zones
+
+`pool_init` and `pool_engage` are separate calls so that a pool can be fed from
+more than one memory zone, at any time (`static_object_pool::freelist()` exists
+for the same purpose).  Cells are now addressed by their address in one common
+address space; a zone is its base address, its size in bytes and the element
+size it was engaged with. -/
+
+/-- `pool_engage(pool, zone, size, elemsz)` with `zone` at address `base`:
+```
+char *stop = zone + size; char *it = zone;
+while (it < stop) { slist_add((slist_head *)it, &pool->free_blocks); it += elemsz; }
+```
+(`Pool.engage` above is the case `base = 0`.) -/
+def Pool.engageAt (p : Pool) (base size elemsz : Nat) : Pool :=
+  ⟨engageLoop elemsz (base + size) (size + 1) base p.free⟩
+
+/-- the same on `next` pointers -/
+def engageAtP (m : Links) (head base size elemsz : Nat) : Links :=
+  engageLoopP elemsz (base + size) head (size + 1) base m
+
+/-- the two `assert`s on the way into `pool_engage` through `igris::pool::init`:
+`assert(elsize >= sizeof(struct slist_head))` (`init`, after
+`fix: igris::pool::init() asserts that a cell can hold the free-list link`) and
+`assert(size % elemsz == 0)` (`pool_engage`).  For the C function `pool_engage` itself
+`elemsz >= sizeof(struct slist_head)` is its documented precondition. -/
+def engageRefused (size elemsz : Nat) : Bool := elemsz < 8 || size % elemsz != 0
+
+structure Zone where
+  base : Nat
+  size : Nat
+  elemsz : Nat
+  deriving Repr, DecidableEq
+
+/-- number of cells `pool_engage` carves out of the zone -/
+def Zone.ncells (z : Zone) : Nat := z.size / z.elemsz
+
+/-- the two byte ranges share no byte -/
+def Zone.disjoint (z w : Zone) : Bool := z.base + z.size ≤ w.base || w.base + w.size ≤ z.base
+
+/-- total number of cells of the zones engaged so far -/
+def capacity : List Zone → Nat
+  | [] => 0
+  | z :: zs => z.ncells + capacity zs
+
+inductive MOp where
+  | engage (base size elemsz : Nat)
+  | alloc
+  | free (c : Nat)
+  deriving Repr, DecidableEq
+
+/-- pool state with the ghost list of cells handed out and the ghost list of
+zones engaged so far (most recent first) -/
+structure MState where
+  pool : Pool
+  live : List Nat
+  zones : List Zone
+  deriving Repr, DecidableEq
+
+def MState.init : MState := ⟨Pool.init, [], []⟩
+
+/-- `none` = outside the property: `pool_engage` refuses the zone (`engageRefused`: its two
+`assert`s), a zone that overlaps a zone engaged before
+(the same memory handed to the pool twice), `pool_free` of a cell that is not
+allocated -/
+def mstep (s : MState) : MOp → Option (MState × Option Nat)
+  | .engage b sz e =>
+    if engageRefused sz e then none
+    else if s.zones.all (Zone.disjoint ⟨b, sz, e⟩) then
+      some (⟨s.pool.engageAt b sz e, s.live, ⟨b, sz, e⟩ :: s.zones⟩, none)
+    else none
+  | .alloc =>
+    match s.pool.alloc with
+    | (none, p) => some (⟨p, s.live, s.zones⟩, none)
+    | (some c, p) => some (⟨p, c :: s.live, s.zones⟩, some c)
+  | .free c =>
+    if s.live.contains c then some (⟨(s.pool.release c).1, s.live.erase c, s.zones⟩, none) else none
+
+def mrun : MState → List MOp → Option MState
+  | s, [] => some s
+  | s, op :: ops =>
+    match mstep s op with
+    | none => none
+    | some (s', _) => mrun s' ops
+
+/-- the stores a request performs into the zones (program order): `pool_engage`
+writes one link per cell of the new zone, `pool_free` one link into the freed
+cell, `pool_alloc` none (it only rewrites `head->next`) -/
+def mstepEvs (s : MState) : MOp → List Ev
+  | .engage b sz e => engageEvs e (b + sz) (sz + 1) b
+  | .alloc => []
+  | .free c => (s.pool.release c).2
+
+/-- run a multi-zone history and collect all stores in program order -/
+def mrunE : MState → List MOp → Option (MState × List Ev)
+  | s, [] => some (s, [])
+  | s, op :: ops =>
+    match mstep s op with
+    | none => none
+    | some (s', _) =>
+      match mrunE s' ops with
+      | none => none
+      | some x => some (x.1, mstepEvs s op ++ x.2)
+
+/-- the same requests executed on the `next` pointers (`head` = address of
+`pool->free_blocks`); returns the new link memory and the pointer returned -/
+def mstepP (m : Links) (head : Nat) : MOp → Links × Option Nat
+  | .engage b sz e => (engageAtP m head b sz e, none)
+  | .alloc => let x := poolAllocP m head; (x.2, x.1)
+  | .free c => (slistAdd m c head, none)
+
+def mrunP (head : Nat) : Links → List MOp → Links
+  | m, [] => m
+  | m, op :: ops => mrunP head (mstepP m head op).1 ops
+
+/-! ### a default-constructed `igris::pool` (`pool() = default`, never `init`-ed)
+
+The member initialisers give `head = POOL_HEAD_INIT(head)` (empty list),
+`_zone = nullptr`, `_size = _elemsz = 0`, `_count = 0`.  After
+`fix: igris::pool::size() of a pool without a zone is 0` the routine reads
+`return _elemsz ? _size / _elemsz : 0;` — which is what `IPool.cells` computes
+(`x / 0 = 0` on `Nat`).  The routine as it was divided by `_elemsz`
+unconditionally: a trap (SIGFPE) in `size()`, hence in `cell_is_allocated()`,
+`begin()` and `++it`. -/
+
+def IPool.default : IPool := ⟨Pool.init, 0, 0, 0⟩
+
+/-- `size()` as it was before the fix: `none` = division by zero (trap) -/
+def IPool.cellsOrig (p : IPool) : Option Nat := if p.elemsz = 0 then none else some (p.size / p.elemsz)
+
+/-! ### static_object_pool with its construction / destruction ledger and
+zones added through `freelist()` -/
+
+structure SOPx where
+  sop : SOP
+  /-- ghost: the pool's own storage and the zones engaged through `freelist()` -/
+  zones : List Zone
+  /-- ghost: every run of `T`'s constructor (the cell it ran on), most recent first -/
+  ctor : List Nat
+  /-- ghost: every run of `T`'s destructor -/
+  dtor : List Nat
+  deriving Repr, DecidableEq
+
+def SOPx.init (sizeofT alignofT cap : Nat) : SOPx :=
+  let s := storageSize sizeofT alignofT
+  ⟨SOP.init sizeofT alignofT cap, [⟨0, cap * s, s⟩], [], []⟩
+
+inductive SXOp where
+  | create
+  | destroy (c : Nat)
+  /-- `pool_engage(p.freelist(), zone, ncells * sizeof(storage_type), sizeof(storage_type))` -/
+  | engage (base ncells : Nat)
+  deriving Repr, DecidableEq
+
+/-- `create`: the constructor runs exactly when `pool_alloc` returned a cell, on
+that cell; `destroy(obj)`: the destructor runs on `obj`, then `pool_free`.
+`none` = outside the property (destroy of a pointer that holds no object, an
+overlapping extra zone). `s` = `sizeof(storage_type)`. -/
+def sxstep (s : Nat) (p : SOPx) : SXOp → Option (SOPx × Option Nat)
+  | .create =>
+    let x := p.sop.create
+    match x.1 with
+    | none => some ({ p with sop := x.2 }, none)
+    | some c => some ({ p with sop := x.2, ctor := c :: p.ctor }, some c)
+  | .destroy c =>
+    if p.sop.objs.contains c then some ({ p with sop := p.sop.destroy c, dtor := c :: p.dtor }, none) else none
+  | .engage b n =>
+    if engageRefused (n * s) s then none
+    else if p.zones.all (Zone.disjoint ⟨b, n * s, s⟩) then
+      some ({ p with sop := { p.sop with head := p.sop.head.engageAt b (n * s) s }, zones := ⟨b, n * s, s⟩ :: p.zones }, none)
+    else none
+
+def sxrun (s : Nat) : SOPx → List SXOp → Option SOPx
+  | p, [] => some p
+  | p, op :: ops =>
+    match sxstep s p op with
+    | none => none
+    | some (p', _) => sxrun s p' ops
+
 end Igris.C10
